@@ -32,7 +32,7 @@ type c05Replay struct {
 }
 
 // options that do not concern a walk
-var c05Extras = []string{"json", "yaml", "toml", "noiter", "exts", "strict", "target", "nil", "nil,toml,exts,json", "strict,yaml,noiter"}
+var c05Extras = []string{"json", "yaml", "toml", "noiter", "exts", "strict", "target", "nil", "nil,toml,exts,json", "strict,yaml,noiter", "dry", "dry,exts"}
 
 // the errors a callback may return: the walk must hand back the very value, whatever it is or wraps
 var c05Errs = map[string]error{
